@@ -255,15 +255,19 @@ func crashModelTie(start *simfs.Disk, prefix []string, segSize int, ops []string
 			if i < len(evs) && !mapped[i] && i != ackRel && i != 0 {
 				continue // no model-visible step ends here: same image as the previous point
 			}
-			for _, kind := range []string{"proc", "old", "new"} {
+			for _, kind := range []string{"proc", "old", "new", "files", "content"} {
 				var img *simfs.Disk
 				switch kind {
 				case "proc":
 					img = tr.ProcessCrash()
 				case "old":
 					img = tr.PowerLoss(powerChoices[0].mk(tr, r))
-				default:
+				case "new":
 					img = tr.PowerLoss(powerChoices[1].mk(tr, r))
+				case "files": // un-fsynced directory entries survive, un-fsynced batches do not
+					img = tr.PowerLoss(powerChoices[2].mk(tr, r))
+				default: // un-fsynced batches survive (in files whose entry is durable), un-fsynced entries do not
+					img = tr.PowerLoss(powerChoices[3].mk(tr, r))
 				}
 				keep := img.Clone()
 				w2, err := openWalOn(img, segSize, nil)
